@@ -28,7 +28,7 @@ impl Check for C02 {
     fn runs(&self, tier: Tier) -> u64 {
         match tier {
             Tier::Quick => 200_000,
-            Tier::Thorough => 20_000_000,
+            Tier::Thorough => 80_000_000,
         }
     }
     fn rule(&self) -> String {
